@@ -172,6 +172,36 @@ def _h_wrapper13(rec):
 
 
 HANDLERS["wrapper13"] = _h_wrapper13
+def _h_c15(rec):
+    m = rec["model"] or {}
+    tried = []
+    try:
+        if rec["replay"]["kind"] == "train_val_split":
+            n, p = int(m["n"]), rt.fnum(m["val_prop"])
+            if 2 <= n <= 200 and 0 <= p <= 1:
+                f = rt.rt_split(n, p)
+                tried.append(f"n={n}, val_prop={p}")
+                if f:
+                    return True, "; ".join(f)
+        elif rec["replay"]["kind"] == "get_batches":
+            n, bs = int(m["n"]), int(m["batch_size"])
+            if 1 <= n <= 300 and 1 <= bs <= 400:
+                f = rt.rt_batches(n, bs)
+                tried.append(f"n={n}, batch_size={bs}")
+                if f:
+                    return True, "; ".join(f)
+    except Exception as ex:  # noqa: BLE001
+        tried.append(f"model not usable: {ex}")
+    if os.environ.get("FJVC_REPLAY_SKIP_GRID") == "1":
+        return False, f"not reproduced at the model point {tried}; grid already passed in this run"
+    fails = rt.rt_c15_grid("quick", first_only=True)
+    if fails:
+        return True, fails[0]["what"]
+    return False, f"not reproduced at the model point {tried}; index-tagged grid passed"
+
+
+for _k in ("train_val_split", "get_batches", "fit_rows"):
+    HANDLERS[_k] = _h_c15
 HANDLERS["transformed"] = _grid_handler("rt_c03", "C03 change-of-variables")
 HANDLERS["merge_transforms"] = _grid_handler("rt_c03", "C03 change-of-variables")
 
